@@ -93,6 +93,11 @@ def call(p, m):
         warnings.simplefilter("ignore")
         try:
             r = getattr(p, m)()
+            if isinstance(r, np.ndarray) and r.flags.writeable:
+                # the caller owns a returned array: it is overwritten in place (normalising, zeroing ...) and the particle is
+                # asked again - the answer is still the one its attributes define
+                r[...] = 12345.0
+                r = getattr(p, m)()
         except Exception as e:
             return ["raise", type(e).__name__]
     if isinstance(r, np.ndarray):
@@ -454,6 +459,10 @@ def required_unset_cases():
                 for others in ("set", "unset"):
                     vals = {a: (None if a in S or (others == "unset" and a not in REQUIRED[m]) else BASE[a]) for a in KIN + ["pdg"]}
                     out.append({"kind": "unset", "methods": [m], "unset": list(S), "others": others, "values": vals})
+                    if m == "mass_from_energy_momentum" and others == "set":
+                        # the species switch (massless by convention) must not get ahead of the missing-input guard
+                        for pdg in (22, 21, -12):
+                            out.append({"kind": "unset", "methods": [m], "unset": list(S), "others": others, "values": dict(vals, pdg=pdg)})
     return out
 
 
